@@ -257,3 +257,24 @@ def witness_K1_negated_class_order():
         env = dict(os.environ, PYTHONHASHSEED=hs)
         outs.add(subprocess.run([sys.executable, "-c", code], env=env, stdout=subprocess.PIPE).stdout)
     return len(outs) > 1
+
+
+# ---------------------------------------------------------------------------------------------
+# K6: NaN as a fixed float value (one entry per property, same root cause)
+
+def class_K6_nan_fixed_value(v):
+    for key in ("py_schema", "py_result", "py_a", "py_b"):
+        s = v.get(key)
+        if s is not None:
+            try:
+                if _has_nan_float_value(s):
+                    return True
+            except Exception:
+                pass
+    return False
+
+
+def witness_K6_nan_fixed_value():
+    from d42 import schema, validate
+    s = schema.float(float("nan"))
+    return validate(s, s.props.value).has_errors() and not (s == s)
